@@ -143,8 +143,16 @@ def _worker(case):
         # history: the SAME object is first fitted on other data (other sample size, very different noise level, other
         # weights); every statistic checked below must be that of the second fit alone
         X1, y1, w1 = _first_data(case, X, y, w)
+        # scale event between the fits (dedicated classes): the first fit runs with another setting of the public `scale`
+        # parameter (a supplied value where the judged fit estimates, or the other way round), changed back through
+        # set_params before the judged fit — what counts is the setting at the time of the fit
+        ev = case.get('first_scale', 'same')
+        if ev != 'same':
+            gam.set_params(scale=ev)
         st1, out1 = fitgen.fit_quiet(gam, X1, y1, w1)
-        first = dict(status=st1, n=len(y1))
+        if ev != 'same':
+            gam.set_params(scale=case.get('scale'))
+        first = dict(status=st1, n=len(y1), scale_event=('same' if ev == 'same' else '%s -> %s' % ('supplied' if ev is not None else 'estimated', 'supplied' if case.get('scale') is not None else 'estimated')))
         if st1 == 'ok':
             first['scale'] = float(gam.statistics_['scale'])
     status, out = fitgen.fit_quiet(gam, X, y, w)
@@ -413,7 +421,8 @@ def gen_refit_cases(rng, tier):
                 seed=rng.randrange(10 ** 9), cls=cls, dist=dist, link=link,
                 levels=rng.choice([2, 5]) if (cls == 'GAM' and dist == 'binomial') else 1,
                 expectile=rng.choice([0.25, 0.5, 0.9]) if cls == 'ExpectileGAM' else None,
-                scale=rng.choice([None, None, 0.3, 2.5]) if dedicated else None,
+                scale=((None, rng.choice([0.3, 2.5]))[(rep + i) % 2] if rep < 2 else rng.choice([None, None, 0.3, 2.5])) if dedicated else None,
+                first_scale=((0.7, None)[(rep + i) % 2] if (dedicated and rep < 2) else 'same'),
                 n_mode=rng.choice(['mid', 'large'] if tier == 'quick' else ['m+1', 'small', 'mid', 'large']),
                 weights_mode=['none', 'pos'][(rep + i) % 2] if tier == 'quick' else rng.choice(['none', 'pos', 'int']),
                 lam_mode=rng.choice(['default', 'default', 'mixed']), constraints=False, max_terms=rng.choice([1, 2]),
@@ -749,6 +758,7 @@ def _process(ctx, results):
             f1 = r.get('first') or {}
             ctx.case(st_rf, sig, nontrivial=f1.get('status') == 'ok', sample=dict(small, first_fit=f1))
             ctx.count('refit', 'first fit %s; scale %s' % (f1.get('status'), 'known' if r['known'] is not None else 'estimated'))
+            ctx.count('refit: scale event between the fits', f1.get('scale_event', 'same'))
             if f1.get('status') == 'ok' and r['known'] is None and I['scale'] != 0:
                 ctx.count('refit scale ratio (first / second fit)', '%.0e' % (f1['scale'] / I['scale']))
         if I['scale'] == 0:
